@@ -263,7 +263,7 @@ def run(ctx):
     # ---- engine 2: Hypothesis sequences with whitespace; raw text totality
     anytok = st.builds(
         Token,
-        st.text(alphabet=dl.MODS, max_size=4),
+        st.lists(st.sampled_from(list(dl.MODS)), max_size=4).map("".join),  # (not st.text: see gen/dims.py whitespace_seps)
         st.sampled_from([b[0] for b in BASES]),
         st.none(),
         st.one_of(st.none(), st.sampled_from(gd.DOCS)),
